@@ -473,8 +473,10 @@ class _Base(Prop):
 
     def model_runs(self, tier):
         if tier == "quick":
-            return [{"module": "MC_HtmlTools", "cfg": "HtmlTools_quick.cfg"}]
+            return [{"module": "MC_HtmlTools", "cfg": "HtmlTools_quick.cfg"},
+                    {"module": "ObjHist", "cfg": "ObjHist_quick.cfg", "export": False}]
         return [{"module": "MC_HtmlTools", "cfg": "HtmlTools_thorough.cfg", "export": False},
+                {"module": "ObjHist", "cfg": "ObjHist_thorough.cfg", "export": False},
                 {"module": "MC_HtmlTools", "cfg": "HtmlTools_thorough_gen.cfg"},
                 {"module": "MC_HtmlTools", "cfg": "HtmlTools_sim.cfg", "simulate": "num=2000", "depth": 10, "export": False, "timeout": 900}]
 
@@ -488,6 +490,9 @@ class _Base(Prop):
                 r["gen"] = g
                 r.pop("_module", None)
             return recs
+        if g["kind"] == "objhist":
+            from .. import objhist
+            return objhist.execute(g, H)
         if g["kind"] == "scenario":
             return scenario_record(g, H)
         if g["kind"] == "hist":
@@ -701,6 +706,9 @@ class C08(_Base):
     def gens_random(self, tier, rnd):
         gens = []
         acts = ["Tagify", "Tagify", "CopyTag", "ReadOnly", "ReadOnly", "ReadOnly", "ReadOnly", "MutAppend", "MutAttr", "MutName", "MutDrop"]
+        # the object-history machine (spec/ObjOps.tla): only the object an operation is applied to changes
+        from .. import objhist
+        gens += objhist.gens(rnd, 150 if tier == "quick" else 3000, 8)
         # a component whose tagify() raises: every read-only operation fails the same way every time (a failure leaves
         # nothing behind that makes the same objects behave differently afterwards)
         for n in range(12 if tier == "quick" else 120):
